@@ -125,6 +125,65 @@ def NoShadow (M : Module) : Prop := ∀ f ∈ M.fns, noShadowFn f = true
 instance (M : Module) : Decidable (ScalarCore M) := by unfold ScalarCore; exact inferInstance
 instance (M : Module) : Decidable (NoShadow M) := by unfold NoShadow; exact inferInstance
 
+/-! ## Calls resolve (what the front end's overload resolution guarantees; hypothesis of the C14 lowering theorem) -/
+
+/-- Number of arguments of an argument list. -/
+def argCount : Args → Nat
+  | .nil => 0
+  | .cons _ rest => argCount rest + 1
+
+/-- Number of parameters of the function a call of `name` resolves to: the FIRST definition of that name, exactly as
+`Program.find` (and `CoreSem.findFn`) look it up. -/
+def arityOf (M : Module) (name : String) : Option Nat :=
+  (M.fns.find? (fun f => f.name == name)).map (fun f => f.params.length)
+
+mutual
+  /-- Every call inside the expression is accepted by `sig` (callee name, number of arguments).  Defined on ALL
+  expression forms of the typed core. -/
+  def callsE (sig : String → Nat → Bool) : Expr → Bool
+    | .litI _ => true
+    | .litF _ => true
+    | .var _ _ _ => true
+    | .bin _ _ l r => callsE sig l && callsE sig r
+    | .cast _ e => callsE sig e
+    | .assign lhs rhs => callsE sig lhs && callsE sig rhs
+    | .affix _ _ x => callsE sig x
+    | .call fn _ args => sig fn (argCount args) && callsArgs sig args
+    | .index _ _ base idx => callsE sig base && callsE sig idx
+    | .member _ base _ => callsE sig base
+    | .swizzle _ base _ => callsE sig base
+    | .construct _ args => callsArgs sig args
+  def callsArgs (sig : String → Nat → Bool) : Args → Bool
+    | .nil => true
+    | .cons e rest => callsE sig e && callsArgs sig rest
+end
+
+def callsOptE (sig : String → Nat → Bool) : Option Expr → Bool
+  | none => true
+  | some e => callsE sig e
+
+def callsS (sig : String → Nat → Bool) : Stmt → Bool
+  | .skip => true
+  | .decl _ _ none => true
+  | .decl _ _ (some e) => callsE sig e
+  | .expr e => callsE sig e
+  | .seq a b => callsS sig a && callsS sig b
+  | .ite1 c t => callsE sig c && callsS sig t
+  | .ite2 c t e => callsE sig c && callsS sig t && callsS sig e
+  | .whileL c body => callsE sig c && callsS sig body
+  | .doL body c => callsS sig body && callsE sig c
+  | .forL init c next body => callsS sig init && callsOptE sig c && callsOptE sig next && callsS sig body
+  | .brk => true
+  | .cont => true
+  | .ret none => true
+  | .ret (some e) => callsE sig e
+
+/-- A call of `name` with `n` arguments resolves in `M`: the function of that name has `n` parameters. -/
+def resolves (M : Module) (name : String) (n : Nat) : Bool := arityOf M name == some n
+
+/-- Every call in every function body of `M` names a function of `M` and passes as many arguments as that function
+has parameters. -/
+def callsResolve (M : Module) : Bool := M.fns.all fun f => callsS (resolves M) f.body
 
 end Core
 end Nsl
